@@ -416,6 +416,49 @@ func main() {
 					}
 				}
 			})
+			// long lists: N offers the configuration declines (N up to 300), then an acceptable one;
+			// and N declined offers followed by a malformed one (which is still an error)
+			longN := []int{4, 8, 15, 16, 17, 31, 32, 33, 63, 64, 65, 100, 300}
+			t.Par(len(cfgs), func(ci int) {
+				cfg := cfgs[ci]
+				var declined, accepted *P
+				for i := range rep {
+					if alone(cfg, offerOption(rep[i])) {
+						if accepted == nil {
+							accepted = &rep[i]
+						}
+					} else if declined == nil {
+						declined = &rep[i]
+					}
+				}
+				if declined == nil || accepted == nil {
+					return
+				}
+				for _, n := range longN {
+					n := n
+					t.Do(func() string {
+						return fmt.Sprintf("long list config%s: %d x offer%s (declined) then offer%s", ps(cfg), n, ps(*declined), ps(*accepted))
+					}, func() *explore.Fail {
+						var list []P
+						for i := 0; i < n; i++ {
+							list = append(list, *declined)
+						}
+						if f := judge(cfg, append(list, *accepted), false); f != nil {
+							return f
+						}
+						var opts []httphead.Option
+						for _, p := range list {
+							opts = append(opts, offerOption(p))
+						}
+						bad := httphead.Option{Name: []byte("permessage-deflate")}
+						bad.Parameters.Set([]byte("server_max_window_bits"), []byte("99"))
+						if _, _, err := run(cfg, append(opts, bad)); err == nil {
+							return explore.Failf("malformed-offer-accepted-after-long-list", "%d declined offers, then server_max_window_bits=99: no error", n)
+						}
+						return nil
+					})
+				}
+			})
 			t.Outcome("ok")
 		})
 
